@@ -144,7 +144,7 @@ impl<S: Syntax, D> Clone for SyntaxNode<S, D> {
     fn clone(&self) -> Self {
         // safety:: the ref count is only dropped when there are no more external references (see below)
         // since we are currently cloning such a reference, there is still at least one
-        let ref_count = unsafe { &mut *self.data().ref_count };
+        let ref_count = unsafe { &*self.data().ref_count };
         ref_count.fetch_add(1, Ordering::AcqRel);
         self.clone_uncounted()
     }
